@@ -2,7 +2,7 @@
    (labels of each operand, labels of the output) the model routines hand to `einsum` (lemmas *_uses_eq, by unfolding), so that
    the per-run source tie (harness/props/C02_eqtie.py: equation strings regenerated from the CURRENT Python source by ast) can
    compare them, up to a renaming of the labels (canon_eq), with the equations the theorems of Props/C02.v are proved about. *)
-From Coq Require Import List Arith ZArith Bool.
+From Coq Require Import List Arith ZArith Bool Lia.
 From TLV Require Import Base.Shape Base.PyList Base.Tensor Base.BigSum Model.Base Model.Tenalg.
 Import ListNotations.
 
@@ -96,6 +96,19 @@ Proof.
   unfold mttkrp_e. destruct fs as [|f0 fs']; [discriminate|]. cbv zeta.
   match goal with |- (if ?c then _ else _) = _ -> _ => destruct c end; [|discriminate].
   intros H. injection H as <-. eexists. reflexivity.
+Qed.
+Lemma khatri_rao_e_equation (Ms : list (tensor F)) (w mask : option (tensor F)) (skip : option nat) (R : tensor F) :
+  2 <= length (skipl skip Ms) -> khatri_rao_e Op Ms w mask skip = Ok R ->
+  exists hasw ops s, R = reshape s (einsum Op (fst (eq_khatri_rao (length (skipl skip Ms)) hasw (match mask with Some _ => true | None => false end)))
+                                          (snd (eq_khatri_rao (length (skipl skip Ms)) hasw (match mask with Some _ => true | None => false end))) ops).
+Proof.
+  intros Hlen. unfold khatri_rao_e. destruct (skipl skip Ms) as [|M0 [|M1 rest]]; cbn [length] in Hlen; try lia.
+  destruct (kr_valid (M0 :: M1 :: rest)); [|discriminate].
+  destruct (einsum_weights Op (ncols M0) w) as [w'|]; [|discriminate]. cbn [rbind].
+  match goal with |- (if ?c then _ else _) = _ -> _ => destruct c end; [|discriminate].
+  unfold reshape_spec. destruct (infer_shape _ _) as [s|]; [|discriminate]. cbn [rbind]. intros H. injection H as <-.
+  unfold eq_khatri_rao. destruct w' as [w0|]; destruct mask as [m0|];
+    [exists true | exists true | exists false | exists false]; eexists; exists s; cbn [fst snd]; reflexivity.
 Qed.
 Lemma multi_mode_dot_e_equation (T : tensor F) (Ms : list (tensor F)) modes skip tr R :
   multi_mode_dot_e Op T Ms modes skip tr = Ok R ->
